@@ -11,14 +11,20 @@
 
   Two layers.
   (A) The ALGEBRA over an abstract value carrier (`ValOps R`): `powVal` (what the power basis holds),
-      `factorize`, `psRec` (Paterson–Stockmeyer recursion), `evalBasis` (the specification).  The
-      theorems of `Props/C13.lean` are about these.
+      `factorize`/`factorizeF` (with user-set IsOdd/IsEven), `psRec` (Paterson–Stockmeyer recursion),
+      `evalBasis` (the specification); at the end of the file the bookkeeping of the composite circuits
+      (`normIters`, `goldschmidt`, `normStep`) and of the Chebyshev change of basis (`changeOfBasis8`,
+      `changeOfBasisVec8`, `chebEval`).
   (B) The MACHINE: the evaluator as a state machine over operands carrying (level, scale mod t,
-      ciphertext degree, slot values) and emitting the ordered trace of scheme-evaluator calls.  The
-      driver runs (B) and (A) on the same input; the harness compares the trace and the final
-      level/scale/values with the real code, and the value of (A) with the decrypted result.
-  Scales are exact modulo t (bgv).  For ckks (`t = 0`) the machine tracks levels only (the real scales
-  are 128-bit floats divided by non-dyadic primes; they are checked by probes, not tied).
+      ciphertext degree, slot values) and emitting the ordered trace of scheme-evaluator calls; modes:
+      standard / scale-invariant (`Env.inv`), user-set flags (`Env.odd/even`), a fresh basis (`run`) or one
+      the caller filled (`runFrom`, `PreOp`).  The driver runs (B) and (A) on the same input; the harness
+      compares the trace and the final level/scale/values with the real code, and the value of (A) with the
+      decrypted result.  The functions are written without join points (explicit `else`, helper functions,
+      projections instead of tuple patterns) so that `Proofs/PolyEvalSim.lean` can follow them.
+  Scales are exact modulo t (bgv).  For ckks (`t = 0`) the machine tracks levels and degrees only, with ONE
+  level per rescaling (the real scales are 128-bit floats divided by non-dyadic primes, and
+  `LevelsConsumedPerRescaling = 2` parameter sets are probed, not modelled).
   Core Lean only.
 -/
 namespace Lattigo.Model.PolyEval
@@ -655,5 +661,21 @@ def changeOfBasisVec8 (slots : Nat) (mapping : List (List Nat)) (ivs : List (Int
     of basis `u = (2x - a - b)/(b - a)` is integral: `Σ c_i T_i(u)` -/
 def chebEval (a b x : Int) (coeffs : List Int) : Int :=
   evalBasis intOps true ((2 * x - a - b) / (b - a)) coeffs
+
+/-- `inverse.GoldschmidtDivisionNew`, the arithmetic of its loop on values: `a = 2 - x`, `b = 1 - x`, then
+    `iters - 1` times `b = b·b; a = a + a·b`.  Returns `(a, b)` after `k` steps. -/
+def goldschmidt {R : Type} (O : ValOps R) (x : R) : Nat → R × R
+  | 0 => (O.sub (O.ofNat 2) x, O.sub (O.ofNat 1) x)
+  | k + 1 =>
+    let ab := goldschmidt O x k
+    let b := O.mul ab.2 ab.2
+    (O.add ab.1 (O.mul ab.1 b), b)
+
+/-- one compression step of `inverse.IntervalNormalization` on values: `z = 1 - (c·y)²`, the normalised value
+    and the normalisation factor are both multiplied by `z`.  State `(y, fac)`. -/
+def normStep {R : Type} (O : ValOps R) (c : R) (s : R × R) : R × R :=
+  let cy := O.mul c s.1
+  let z := O.sub (O.ofNat 1) (O.mul cy cy)
+  (O.mul s.1 z, O.mul s.2 z)
 
 end Lattigo.Model.PolyEval
